@@ -93,7 +93,7 @@ func genC01(tier string, seed uint64, emit func(string)) {
 	{
 		full, top := 4200, 1<<20
 		if tier == "thorough" {
-			full, top = 70000, 1<<24
+			full, top = 20000, 1<<24
 		}
 		for lo := 0; lo < full; lo += 300 {
 			emit(fmt.Sprintf("enclen %d %d", lo, min(lo+300, full)))
